@@ -388,6 +388,7 @@ class HttpRpc(SimpleDictDocument):
 
 _fragment_pattern_re = re.compile('<([A-Za-z0-9_]+)>')
 _full_pattern_re = re.compile('{([A-Za-z0-9_]+)}')
+_any_placeholder_re = re.compile('<[A-Za-z0-9_]+>|{[A-Za-z0-9_]+}')
 
 
 _fragment_pattern_b_re = re.compile(b'<([A-Za-z0-9_]+)>')
@@ -415,14 +416,26 @@ class HttpPattern(object):
 
         if not six.PY2:
             assert isinstance(pattern_s, six.text_type)
-        pattern = _fragment_pattern_re.sub(r'(?P<\1>[^/]*)', pattern_s)
+        # the text between the placeholders is literal: it names an address,
+        # it is not a regular expression
+        pattern = cls._escape_literals(pattern_s)
+        pattern = _fragment_pattern_re.sub(r'(?P<\1>[^/]*)', pattern)
         pattern = _full_pattern_re.sub(r'(?P<\1>[^/]*)', pattern)
 
-        pattern_b = pattern_s.encode(cls.URL_ENCODING)
-        pattern_b = _fragment_pattern_b_re.sub(b'(?P<\\1>[^/]*)', pattern_b)
-        pattern_b = _full_pattern_b_re.sub(b'(?P<\\1>[^/]*)', pattern_b)
+        pattern_b = pattern.encode(cls.URL_ENCODING)
 
         return re.compile(pattern), re.compile(pattern_b)
+
+    @staticmethod
+    def _escape_literals(pattern_s):
+        retval = []
+        pos = 0
+        for match in _any_placeholder_re.finditer(pattern_s):
+            retval.append(re.escape(pattern_s[pos:match.start()]))
+            retval.append(match.group(0))
+            pos = match.end()
+        retval.append(re.escape(pattern_s[pos:]))
+        return ''.join(retval)
 
     @classmethod
     def _compile_host_pattern(cls, pattern):
